@@ -53,6 +53,8 @@ def _intval(v):
     ok, x = _val(v)
     if not ok or isinstance(x, bool) or not isinstance(x, (int, float)) or x != int(x):
         raise Unsupported("non-integer constraint argument %r" % (v,))
+    if abs(x) > 10 ** 8:
+        raise Unsupported("constraint argument beyond the 32-bit universe of TLC")
     return int(x)
 
 
@@ -63,7 +65,7 @@ def _type(t, name_of):
         has, cv = _val(t["val"])
         if has:
             out = {"k": "const", "v": _jv(t["val"])}
-            if out["v"]["j"] not in ("str", "num", "bool"):
+            if out["v"]["j"] not in ("str", "num", "bool", "big"):
                 raise Unsupported("constant of kind " + out["v"]["j"])
             return out
         lo, hi, mn, mx = dict(NOB), dict(NOB), -1, -1
@@ -120,6 +122,8 @@ def _type(t, name_of):
         if vals and all(isinstance(x, str) for x in vals):
             return {"k": "enum", "vals": vals}
         if vals and all(isinstance(x, int) and not isinstance(x, bool) for x in vals):
+            if any(abs(x) > 10 ** 8 for x in vals):
+                raise Unsupported("integer enum member beyond the 32-bit universe of TLC")
             return {"k": "ienum", "vals": vals}
         raise Unsupported("enum with mixed or empty members")
     if k == "disj":
@@ -130,6 +134,28 @@ def _type(t, name_of):
             # a disjunction of references without discriminator: same document semantics as a dunion
             return {"k": "dunion", "disc": "", "refs": [name_of(b["pkg"], b["name"]) for b in brs]}
         return {"k": "union", "ts": [_elem(b, name_of) for b in brs]}
+    if k == "inter":
+        # an intersection of structs / references to structs IS the struct with all their fields (what cog's own
+        # RemoveIntersections pass and every generated type make of it)
+        fields, seen = [], set()
+        for b in t["branches"]:
+            bt = b
+            hops = 0
+            while bt["k"] == "ref" and hops < 8:
+                bt = name_of.objects.get((bt["pkg"], bt["name"]))
+                hops += 1
+                if bt is None:
+                    raise Unsupported("intersection branch refers to an unknown object")
+            if bt["k"] not in ("struct", "inter"):
+                raise Unsupported("intersection branch of kind " + bt["k"])
+            fs = _type(bt, name_of)["fields"]
+            for f in fs:
+                if f["n"] in seen:
+                    fields = [g for g in fields if g["n"] != f["n"]]
+                seen.add(f["n"])
+                fields.append(f)
+        name_of.saw_inter = True
+        return {"k": "struct", "fields": fields}
     raise Unsupported("IR kind " + k)
 
 
@@ -145,7 +171,8 @@ def ir_to_term(ir, main_pkg):
     """-> dict(defs, root, foreign). Definition ids: objects of main_pkg keep their name, others are `<pkg>.<name>`."""
     def name_of(pkg, name):
         return name if pkg == main_pkg else "%s.%s" % (pkg, name)
-    defs, foreign, root = [], [], ""
+    name_of.objects = {(s["pkg"], o["name"]): o["type"] for s in ir for o in s["objects"]}
+    defs, foreign, root, inter = [], [], "", []
     for s in ir:
         for o in s["objects"]:
             if o["selfpkg"] != s["pkg"] or o["selfname"] != o["name"]:
@@ -154,14 +181,20 @@ def ir_to_term(ir, main_pkg):
             ot = o["type"]
             if ot.get("nullable"):
                 raise Unsupported("nullable object type")
+            name_of.saw_inter = False
             defs.append({"name": nid, "t": _type(ot, name_of)})
+            if name_of.saw_inter:
+                inter.append(nid)
             if s["pkg"] != main_pkg:
                 foreign.append({"name": nid, "as": o["name"], "pkg": s["pkg"]})
         if s["pkg"] == main_pkg:
             root = s["entry"]
     # main package first (stable order)
     defs.sort(key=lambda d: ("." in d["name"]))
-    return {"defs": defs, "root": root, "foreign": foreign}
+    out = {"defs": defs, "root": root, "foreign": foreign}
+    if inter:
+        out["_inter"] = inter       # objects spelled as intersections in the IR (python side only: witness classes)
+    return out
 
 
 def term_equal(a, b):
@@ -238,9 +271,12 @@ def _is_int(x):
     return isinstance(x, (int, float)) and not isinstance(x, bool) and x == int(x)
 
 
-def describe(n, fmt, notes):
-    """One schema node -> E-term. `notes` collects keywords that are not part of the format's language."""
+def describe(n, fmt, notes, lenient=False):
+    """One schema node -> E-term. `notes` collects keywords that are not part of the format's language.
+    lenient: read the draft-07 keywords an OpenAPI 3.0 document must not contain (`const`, numeric exclusive bounds) the
+    way draft-07 reads them (used only to ATTRIBUTE an acceptance to those keywords, never for a verdict)."""
     oa = fmt == "openapi"
+    strict_oa = oa and not lenient
     if n is True:
         return {"k": "any"}
     if not isinstance(n, dict):
@@ -271,7 +307,7 @@ def describe(n, fmt, notes):
         if comb in keys:
             if keys - {comb, "discriminator"} or not isinstance(n[comb], list):
                 return dict(UNKNOWN)
-            ts = [describe(b, fmt, notes) for b in n[comb]]
+            ts = [describe(b, fmt, notes, lenient) for b in n[comb]]
             nulls = [i for i, b in enumerate(ts) if b.get("k") == "type" and b["ty"] == "null"]
             if len(ts) == 2 and len(nulls) == 1:
                 return {"k": "nullable", "t": ts[1 - nulls[0]]}
@@ -303,17 +339,17 @@ def describe(n, fmt, notes):
                         d = sc.py_to_jv(sub["default"])
                     except sc.NotInUniverse:
                         return dict(UNKNOWN)
-                props.append({"n": name, "t": describe(sub, fmt, notes), "req": name in req, "def": d})
+                props.append({"n": name, "t": describe(sub, fmt, notes, lenient), "req": name in req, "def": d})
             if any(r not in n.get("properties", {}) for r in req):
                 return dict(UNKNOWN)
             return wrap({"k": "obj", "closed": ap is False, "props": props})
         if req:
             return dict(UNKNOWN)
-        return wrap({"k": "map", "t": describe(ap, fmt, notes)})
+        return wrap({"k": "map", "t": describe(ap, fmt, notes, lenient)})
     if ty == "array":
         if rest - {"items"}:
             return dict(UNKNOWN)
-        return wrap({"k": "arr", "t": describe(n.get("items", True), fmt, notes)})
+        return wrap({"k": "arr", "t": describe(n.get("items", True), fmt, notes, lenient)})
     if ty not in ("string", "integer", "number", "boolean", "null"):
         return dict(UNKNOWN)
     if ty == "null" and oa:
@@ -327,7 +363,7 @@ def describe(n, fmt, notes):
         elif kw == "maxLength" and _is_int(v):
             e["mx"] = int(v)
         elif kw == "const":
-            if oa:
+            if strict_oa:
                 notes.add("const")          # not a keyword of OpenAPI 3.0: a reader of the document does not see it
                 continue
             try:
@@ -339,15 +375,17 @@ def describe(n, fmt, notes):
             ex = n.get("exclusiveM" + kw[1:])
             if oa and ex is True:
                 e[side] = {"b": excl, "v": int(v)}
+            elif oa and lenient and _is_int(ex) and not isinstance(ex, bool):
+                return dict(UNKNOWN)
             else:
                 if e[side]["b"] != "none":
                     return dict(UNKNOWN)
                 e[side] = {"b": incl, "v": int(v)}
         elif kw in ("exclusiveMinimum", "exclusiveMaximum"):
             side, excl = ("lo", "gt") if kw == "exclusiveMinimum" else ("hi", "lt")
-            if oa:
-                if isinstance(v, bool):
-                    continue                 # handled with minimum / maximum
+            if oa and isinstance(v, bool):
+                continue                     # handled with minimum / maximum
+            if strict_oa:
                 notes.add(kw + ":number")    # OpenAPI 3.0: must be a boolean
                 continue
             if not _is_int(v) or e[side]["b"] != "none":
@@ -358,7 +396,7 @@ def describe(n, fmt, notes):
     return wrap(e)
 
 
-def describe_document(doc, fmt):
+def describe_document(doc, fmt, lenient=False):
     """-> (description dict(defs, root), notes, raw definitions map)."""
     notes = set()
     if fmt == "jsonschema":
@@ -370,7 +408,7 @@ def describe_document(doc, fmt):
     else:
         raw = (doc.get("components") or {}).get("schemas", {})
         root = ""
-    defs = [{"name": k, "t": describe(v, fmt, notes)} for k, v in raw.items()]
+    defs = [{"name": k, "t": describe(v, fmt, notes, lenient)} for k, v in raw.items()]
     return {"defs": defs, "root": root}, notes, raw
 
 
@@ -437,6 +475,8 @@ def _jtype(v):
         return "boolean"
     if v["j"] == "num":
         return "integer" if v["n"] % 10 == 0 else "number"
+    if v["j"] == "big":
+        return "integer"
     return "none"
 
 
